@@ -7,6 +7,8 @@ pub mod models;
 pub mod ordering;
 pub mod parser;
 pub mod validation;
+#[cfg(feature = "verif")]
+pub mod verif;
 
 pub use config::Config;
 pub use error::CgtError;
